@@ -207,7 +207,8 @@ impl Parser {
                 // only methods (and built-in methods) take the receiver as `self`; a field that
                 // holds an ordinary function value is called with its own arguments only.
                 let mut assume_self_is_on_top =
-                    function_type.is_associated_fn() || !matches!(lhs_ty, TypeLayout::Class(_));
+                    function_type.is_associated_fn()
+                        || !matches!(lhs_ty.disregard_distractors(true), TypeLayout::Class(_));
 
                 if let TypeLayout::Module(module_type) = lhs_ty {
                     if let Some(ident) = module_type.get_property(&ident_str) {
